@@ -232,6 +232,10 @@ fn crafted_programs() -> Vec<Prog> {
         "pub fn a(x: u8) -> u8 { b(x) }\npub fn b(x: u8) -> u8 { a(x) }\npub fn main(x: u8) -> u8 { a(x) }\n",
         "fn unused(x: u8) -> u8 { x }\npub fn other(x: u8) -> u8 { x }\npub fn main(x: u8) -> u8 { other(x) }\n",
         "pub fn p(x: u8) -> u8 { x + y }\npub fn q(x: u8) -> u8 { p(x) }\npub fn main(x: u8) -> u8 { q(x) + p(x) }\n",
+        // type cycles that are reached from a definition outside of them
+        "struct Node { next: Link }\nstruct Link { node: Node }\nstruct List { head: Node }\npub fn main(x: u8) -> u8 { x }\n",
+        "enum Tree { Leaf, Inner(Pair) }\nstruct Pair { l: Tree, r: Tree }\nstruct Forest { a: Tree, b: Pair }\nstruct Wood { f: Forest }\npub fn main(x: u8) -> u8 { x }\n",
+        "struct A { b: [B; 2] }\nstruct B { c: (u8, C) }\nenum C { N, Y(A) }\nstruct Outer1 { a: A }\nstruct Outer2 { b: B, o: Outer1 }\nenum Outer3 { V(C, Outer2) }\npub fn main(x: u8) -> u8 { x }\n",
     ]
     .iter()
     .enumerate()
